@@ -16,8 +16,9 @@ from sim.disk import SimDisk
 from .c07 import warm as _warm07
 
 ID = "C20"
+VARY_WRITE_CAP = True  # W4: partial raw data writes (sim.disk)
 VARY_KNOBS = True  # module-level tuning constants of the library are lowered in some runs (sim.core.lower_tuning_constants)
-SHRINK_SIMPLE = {"knobs": None}
+SHRINK_SIMPLE = {"write_cap": None, "knobs": None}
 GUARD_KERNELS = True
 SHRINK_LISTS = ()
 SHRINK_MIN = {"nchans": 1, "nbits": 1, "gulp": 1, "tfactor": 1, "ffactor": 1, "nsub": 1, "batch_size": 1, "chanpersub": 2}
